@@ -1,5 +1,6 @@
 import MoqModel.Render
 import MoqModel.Sexp
+import MoqModel.WF
 /-
   Driver: reads one `(case …)` per line on stdin, prints the model's projections.
   Output: lines `key<TAB>value` (value escaped), terminated by a line `end<TAB><id>`.
@@ -14,21 +15,36 @@ def kv (k : String) (v : Str) : IO Unit := IO.println (k ++ "\t" ++ esc v)
 
 def fuel : Nat := 400
 
+def bstr (b : Bool) : Str := if b then s%"true" else s%"false"
+
 def runCase (id : Str) (inp : Input) : IO Unit := do
-  let r1 := genData Ord.id fuel inp
-  let r2 := genData Ord.rev fuel inp
-  match r1 with
+  let a1 := genAlloc Ord.id fuel inp
+  let a2 := genAlloc Ord.rev fuel inp
+  let r1 := a1.map (Alloc.toData inp)
+  let r2 := a2.map (Alloc.toData inp)
+  match a1 with
   | .error e => kv "err" e.message
-  | .ok d =>
+  | .ok a =>
+    let d := a.toData inp
     match renderNoop d with
     | none => kv "err" s%"<template execution failed>"
     | some t => kv "noop" t
     kv "imports" (Str.join s%";" (d.imports.map fun i => i.alias ++ s%" " ++ i.path))
+    kv "pred.imports" (bstr (a.importsOK && sortedByPath d.imports))
+    kv "pred.names" (bstr (a.namesOK inp.stub))
   let same := match r1, r2 with
     | .ok a, .ok b => decide (a = b)
     | .error a, .error b => decide (a = b)
     | _, _ => false
   kv "orddep" (if same then s%"false" else s%"true")
+  kv "wf.base" (bstr (WF.base inp))
+  kv "wf.imports" (bstr (WF.imports inp))
+  kv "wf.names" (bstr (WF.names inp))
+  kv "wf.generic" (bstr (WF.generic inp))
+  kv "wf.ensure" (bstr (WF.ensure inp))
+  kv "wf.dest" (bstr (WF.dest inp))
+  kv "wf" (bstr (WF.all inp))
+  kv "dst" (dstPath inp)
   kv "end" id
 
 partial def loop (h : IO.FS.Stream) : IO Unit := do
